@@ -3120,11 +3120,12 @@ def simplify_collection_unpacks(source: str) -> str:
             )):
                 elts.extend(elt.value.elts)
                 replacements = True
-            elif core.match_template(  # Can't have a dict in a set, but you can have a dict's keys
-                elt, ast.Starred(value=(ast.Dict))
-            ) and (
-                (isinstance(node, ast.Set) and None not in elt.value.keys)
-                or len(elt.value.values) <= 1
+            elif (
+                core.match_template(  # Can't have a dict in a set, but you can have a dict's keys
+                    elt, ast.Starred(value=(ast.Dict))
+                )
+                and None not in elt.value.keys  # {**other} has no keys of its own
+                and (isinstance(node, ast.Set) or len(elt.value.values) <= 1)
             ):
                 elts.extend(elt.value.keys)
                 replacements = True
